@@ -60,6 +60,7 @@ inline RunResult result_from(const J &j){ RunResult r; r.ok = j.geti("ok"); r.cl
 static std::string *g_cur_seed_line = nullptr;
 inline void fatal_cb(const char *cls,const std::string &msg){
 	RunResult r; r.fail(cls,msg,cls); r.hash = simk::trace_hash();
+	{ const std::string &t = simk::trace_text(); if(!t.empty()) r.msg += "\nTRACE(tail):\n" + (t.size() > 12000 ? t.substr(t.size()-12000) : t); }
 	if(g_in_child && g_result_fd >= 0){ std::string s = result_json(r).str(); (void)!::write(g_result_fd,s.data(),s.size()); _exit(0); }
 	// in-process batch: report and die; the python driver restarts the worker after this seed
 	printf("V %s %s\n",g_cur_seed_line ? g_cur_seed_line->c_str() : "?",result_json(r).str().c_str()); fflush(stdout);
@@ -79,6 +80,7 @@ inline RunResult run_forked(Engine &e,const J &plan,int timeout_s = 120){
 		RunResult r;
 		try { r = e.run(plan); }
 		catch(std::exception const &ex){ r.fail("harness-exception",ex.what()); }
+		{ const std::string &t = simk::trace_text(); if(!t.empty()) r.msg += "\nTRACE(tail):\n" + (t.size() > 12000 ? t.substr(t.size()-12000) : t); }
 		std::string s = result_json(r).str();
 		size_t off = 0; while(off < s.size()){ ssize_t n = ::write(pfd[1],s.data()+off,s.size()-off); if(n <= 0) break; off += n; }
 		_exit(0);
@@ -201,7 +203,7 @@ inline int main_impl(int argc,char **argv,Engine &e,const char *engine_name){
 	if(mode == "--plan"){ J p = e.generate(seed,prop,thorough); printf("%s\n",p.str().c_str()); return 0; }
 
 	if(mode == "--batch"){
-		double t0 = wall(); long runs = 0; std::map<std::string,int64_t> sums; J samples = J::arr(); int viol = 0;
+		double t0 = wall(); long runs = 0; std::map<std::string,int64_t> sums; J samples = J::arr(); int viol = 0; std::set<std::string> classes;
 		for(long idx = from; idx < from + count*stride && wall()-t0 < seconds; idx += stride){
 			uint64_t s = seed_of(idx);
 			std::string sl = std::to_string(idx) + " " + std::to_string(s); g_cur_seed_line = &sl;
@@ -215,9 +217,9 @@ inline int main_impl(int argc,char **argv,Engine &e,const char *engine_name){
 			if(r.counters.t == J::OBJ) for(auto &kv:r.counters.o) sums[kv.first] += kv.second.as_int();
 			if(samples.a.size() < 2 || (r.nt && samples.a.size() < 3)){ std::string ps = plan.str(); if(ps.size() > 1500) ps = ps.substr(0,1500) + "..."; samples.push(J(ps)); }
 			if(r.ok) printf("R %s ok %016llx %016llx\n",sl.c_str(),(unsigned long long)r.hash,(unsigned long long)r.nt);
-			else { viol++; printf("V %s %s\n",sl.c_str(),result_json(r).str().c_str()); }
+			else { viol++; if(classes.insert(r.cls).second || viol <= 3) printf("V %s %s\n",sl.c_str(),result_json(r).str().c_str()); else printf("v %s %s\n",sl.c_str(),r.cls.c_str()); }
 			fflush(stdout);
-			if(viol >= 5) break;
+			if(classes.size() >= 4 || viol >= 300) break;   // a frequent (possibly known) finding must not end exploration
 		}
 		J t = J::obj(); t["runs"] = (long long)runs; t["wall_s"] = wall()-t0; J sj = J::obj(); for(auto &kv:sums) sj[kv.first] = (long long)kv.second; t["sums"] = sj; t["samples"] = samples;
 		printf("T %s\n",t.str().c_str()); fflush(stdout);
@@ -246,7 +248,7 @@ inline int main_impl(int argc,char **argv,Engine &e,const char *engine_name){
 		J rep; try { rep = J::parse(slurp(replay)); } catch(std::exception const &ex){ fprintf(stderr,"cannot parse %s: %s\n",replay.c_str(),ex.what()); return 2; }
 		J plan = rep.get("plan"); if(trace) plan["text_trace"] = true;
 		RunResult r = run_forked(e,plan);
-		J out = J::obj(); out["status"] = r.ok ? "ok" : "violation"; out["class"] = r.cls; out["fingerprint"] = r.fp; out["message"] = r.msg.substr(0,8000); out["trace_hash"] = (unsigned long long)r.hash;
+		J out = J::obj(); out["status"] = r.ok ? "ok" : "violation"; out["class"] = r.cls; out["fingerprint"] = r.fp; out["message"] = r.msg.substr(0,trace ? 20000 : 8000); out["trace_hash"] = (unsigned long long)r.hash;
 		out["expected_class"] = rep.gets("class"); out["expected_hash"] = rep.get("trace_hash"); out["same"] = (!r.ok && r.cls == rep.gets("class"));
 		printf("P %s\n",out.str().c_str());
 		return r.ok ? 0 : 1;
